@@ -292,6 +292,56 @@ static void openingCase(Rng &R, const char *flavor) {
   }
 }
 
+// directed: every fast-packet PGN of the transmit list (library defaults and declared) takes its counter slot, then a
+// declared PGN alternates with an undeclared one: the declared one must keep consecutive ids (slot table sized exactly)
+static void seqExhaustCase(Rng &R, const char *flavor) {
+  char b[160]; int devs = (int)R.range(1, 3);
+  snprintf(b, sizeof b, "reset %s 40 %d %d %llu", flavor, R.chance(1, 2) ? 1 : 2, devs, (unsigned long long)R.below(100000)); exec(b);
+  int d = (int)R.below(devs);
+  std::vector<unsigned long> decl; int nd = (int)R.range(1, 3);
+  for (int i = 0; i < nd; i++) decl.push_back(SOME_FP[5 + R.below(10)]);
+  std::string l = "txlist " + std::to_string(d); for (auto p : decl) l += " " + std::to_string(p); exec(l);
+  unsigned long defFP[] = {126208UL, 126464UL, 126996UL, 126998UL};
+  std::vector<unsigned long> order(defFP, defFP + 4); for (auto p : decl) order.push_back(p);
+  for (size_t i = order.size(); i > 1; i--) std::swap(order[i - 1], order[R.below(i)]);
+  for (auto p : order) genSend(R, d, (long)p, (int)R.range(9, 40));
+  for (int i = 0; i < 12; i++) { genSend(R, d, (long)order.back(), (int)R.range(9, 40)); genSend(R, d, 130817 + (long)R.below(3), (int)R.range(9, 30)); if (R.chance(1, 3)) genSend(R, d, (long)order[R.below(order.size())], 12); }
+}
+
+// directed: a large send queue (more than 256 slots) filled by refusals and drained again: ring indices above 255
+static void bigQueueCase(Rng &R, const char *flavor) {
+  char b[160]; unsigned q = (unsigned)R.range(258, 340);
+  snprintf(b, sizeof b, "reset %s %u 1 1 %llu", flavor, q, (unsigned long long)R.below(100000)); exec(b);
+  exec("accdef 0");
+  int n = (int)R.range(256, (int)q - 1 < 300 ? (int)q - 1 : 300);
+  for (int i = 0; i < n; i++) genSend(R, 0, 127250, 8);
+  exec("q"); exec("accdef 1"); exec("poll"); exec("q");
+  exec("accdef 0"); for (int i = 0; i < 40; i++) genSend(R, 0, 127250, 8); exec("acc 1111111"); exec("poll"); exec("accdef 1"); exec("poll"); exec("q");
+}
+
+// directed: timers armed so that their deadline is exactly the 32-bit scheduler's "disabled" sentinel 0xFFFFFFFF
+static void sentinelCase(Rng &R, const char *flavor, int k, bool opening) {
+  char b[160];
+  if (!opening) {
+    // claim issued at now = 0xFFFFFFFF - 250 - k + j  (settle takes 700 ms)
+    uint64_t origin = 0xFFFFFFFFULL - 250 - 700 - (uint64_t)k;
+    snprintf(b, sizeof b, "reset %s 40 1 1 %llu", flavor, (unsigned long long)origin); exec(b);
+    if (k) exec("t " + std::to_string(k));
+    exec("claim 0");
+    for (int i = 0; i < 6; i++) { genSend(R, 0, 127250, 8); exec("t 49"); exec("poll"); }
+    genSend(R, 0, 129029, 20);
+  } else {
+    // construction at 0xFFFFFFFF - k (FromNow(0)), CANOpen at the first poll that is due, settle deadline near the sentinel
+    uint64_t origin = 0xFFFFFFFFULL - (uint64_t)k;
+    snprintf(b, sizeof b, "reset0 %s 40 1 1 %llu", flavor, (unsigned long long)origin); exec(b);
+    for (int i = 0; i < 8; i++) { exec("poll"); genSend(R, 0, 127250, 8); exec("t " + std::to_string(i < 2 ? 1 : 50)); }
+    uint64_t origin2 = 0xFFFFFFFFULL - 200 - (uint64_t)k;
+    snprintf(b, sizeof b, "reset0 %s 40 2 1 %llu", flavor, (unsigned long long)origin2); exec(b);
+    exec("t 1"); exec("poll");
+    for (int i = 0; i < 8; i++) { exec("t 40"); exec("poll"); genSend(R, 0, 127250, 8); }
+  }
+}
+
 static void randomCase(Rng &R, const char *flavor) {
   unsigned qsize = R.chance(1, 8) ? 40 : (unsigned)R.range(0, 7); int devs = R.chance(1, 2) ? 1 : (int)R.range(1, 9);
   int md = R.chance(1, 6) ? (int)R.below(5) : (R.chance(1, 2) ? 1 : 2);
@@ -360,7 +410,10 @@ int main(int argc, char **argv) {
   }
   // (3) random cases with back-pressure
   int ncases = C.thorough ? 1500 : 150;
-  for (int i = 0; i < ncases; i++) { randomCase(R, flavor); if (i % 3 == 0) openingCase(R, flavor); }
+  for (int i = 0; i < ncases; i++) { randomCase(R, flavor); if (i % 3 == 0) openingCase(R, flavor); if (i % 15 == 0) seqExhaustCase(R, flavor); }
+  for (int i = 0; i < (C.thorough ? 6 : 1); i++) bigQueueCase(R, flavor);
+  for (int k = 0; k < 3; k++) { sentinelCase(R, flavor, k, false); sentinelCase(R, flavor, k, true); }
+  C.sample("directed: slot-table exhaustion for sequence counters; send queue > 256 slots filled and drained; deadlines equal to the 32-bit scheduler sentinel");
   // (4) exhaustive accept/refuse patterns over short op sequences, small queues
   {
     int L = C.thorough ? 10 : 7;
